@@ -1651,6 +1651,8 @@ class sptensor:
             old_modes = np.arange(0, self.ndims, dtype=int)
             keep_modes = np.array([], dtype=int)
         else:
+            # modes must be in range and not repeated
+            tt_dimscheck(self.ndims, dims=old_modes)
             keep_modes = np.setdiff1d(np.arange(0, self.ndims, dtype=int), old_modes)
 
         shapeArray = np.array(self.shape)
